@@ -99,8 +99,56 @@ def correspondence(ctx):
     F.histories(ctx, rep, list(n), n, 'corr')
 
 
+def _corpus_d20(rep):
+    """Regression corpus (defect D20, fixed in /repo): a projected owner-skill modifier of a resisted effect reaches the
+    target fit's drone and is scaled by the *drone's* resistance attribute; when that attribute changes (a skill of the
+    drone's owner is trained) the value the projection modifies on the drone must follow."""
+    from eos import Drone, Fit, ModuleHigh, Ship, Skill, SolarSystem, State
+    from eos.const.eos import ModAffecteeFilter, ModAggregateMode, ModDomain, ModOperator
+    from eos.const.eve import AttrId, EffectCategoryId
+    from eos.eve_obj.modifier import DogmaModifier
+    from harness import mem
+    ch = mem.MemCache()
+    x, v, r = ch.mkattr(stackable=True), ch.mkattr(stackable=True), ch.mkattr(stackable=True)
+    ch.mkattr(attr_id=AttrId.skill_level)
+    skill_t = ch.mktype(effects=[ch.mkeffect(category_id=EffectCategoryId.passive, modifiers=(DogmaModifier(
+        affectee_filter=ModAffecteeFilter.owner_skillrq, affectee_domain=ModDomain.character, affectee_filter_extra_arg=-1,
+        affectee_attr_id=r.id, operator=ModOperator.post_mul, aggregate_mode=ModAggregateMode.stack,
+        affector_attr_id=AttrId.skill_level),))])
+    web = ch.mkeffect(category_id=EffectCategoryId.target, resist_attr_id=r.id, modifiers=(DogmaModifier(
+        affectee_filter=ModAffecteeFilter.owner_skillrq, affectee_domain=ModDomain.target,
+        affectee_filter_extra_arg=skill_t.id, affectee_attr_id=x.id, operator=ModOperator.post_percent,
+        aggregate_mode=ModAggregateMode.stack, affector_attr_id=v.id),))
+    mod_t = ch.mktype(attrs={v.id: 20}, effects=[web], default_effect=web)
+    ship_t = ch.mktype(attrs={r.id: 1})
+    drone_t = ch.mktype(attrs={x.id: 100, r.id: 0.25}, required_skills={skill_t.id: 1})
+
+    def build(level, read_first):
+        ss = SolarSystem(source=mem.source(ch))
+        a, b = Fit(solar_system=ss), Fit(solar_system=ss)
+        b.ship = Ship(ship_t.id)
+        d = Drone(drone_t.id, state=State.active)
+        b.drones.add(d)
+        sk = Skill(skill_t.id, level=1 if read_first else level)
+        b.skills.add(sk)
+        m = ModuleHigh(mod_t.id, state=State.active)
+        a.modules.high.append(m)
+        m.target = b.ship
+        if read_first:
+            d.attrs[x.id]
+            sk.level = level
+        return d.attrs[x.id]
+    for level in (2, 4, 0):
+        got, want = build(level, True), build(level, False)
+        rep.case(kind='corpus-D20', sig=('corpus-D20', level))
+        if not C.close(got, want):
+            rep.violate('corpus D20: drone attribute after its resistance attribute changed is %r, built from scratch %r'
+                        % (got, want), {'corpus': 'D20', 'level': level})
+
+
 def oracle(ctx):
     rep = ctx.report
+    _corpus_d20(rep)
     F.mirror_oracle(ctx, rep, ['basic', 'projheavy', 'fleet', 'pymods'], ctx.n(25, 600), 'mirror')
     F.report_k1(rep)
 
